@@ -44,7 +44,17 @@ def build_problem(xs, ys, occ):
     r = rect_module()
     from frame.geometry.geometry import Rectangle
     Rectangle.undefine_epsilon()
-    ifile = rio.get_alloc(alloc_yaml(xs, ys, occ))
+    if min(xs) < 0 or min(ys) < 0:
+        # allocations live in the positive quadrant; a grid elsewhere is handed to select_box as the parsed structure get_alloc builds
+        rl = []
+        for j in range(len(ys) - 1):
+            for i in range(len(xs) - 1):
+                cx, cy, w, h = (xs[i] + xs[i + 1]) / 2, (ys[j] + ys[j + 1]) / 2, xs[i + 1] - xs[i], ys[j + 1] - ys[j]
+                p = occ[j][i]
+                rl.append({f"b{len(rl)}": [{"dim": [cx, cy, w, h]}, {"mod": [{"M": p}] if p > 0 else [{"N": 0.5}]}]})
+        ifile = {"Width": xs[-1] - xs[0], "Height": ys[-1] - ys[0], "Rectangles": rl}
+    else:
+        ifile = rio.get_alloc(alloc_yaml(xs, ys, occ))
     carrier = types.SimpleNamespace(input_problem=[], selbox="", factor=10000, inibox=(0, 0, 0, 0, 0), blocks=[], prev_x={}, prev_y={},
                                     next_x={}, next_y={}, xcoords=[], ycoords=[], theoreticalBestArea=0.0, gm=None)
     carrier.input_problem, carrier.selbox = rio.select_box("M", ifile)
@@ -156,6 +166,8 @@ GRIDS_QUICK = [
     ([0, 0.1, 0.2, 0.3], [0, 0.1, 0.2]), ([0, 1 / 3, 2 / 3, 1], [0, 1 / 3, 2 / 3]), ([0.1, 0.2, 0.4], [0.3, 0.6, 0.7]),   # decimal / non-representable steps
     ([0, 0.7, 1.4, 2.1], [0, 0.7, 1.4]),
     ([0, 1, 2, 3, 4], [0, 1, 2, 3]), ([2, 3, 5, 6, 8], [1, 2, 3]),
+    ([-3, -2, -1], [-2, -1, 0]), ([-0.9, -0.8, -0.7000000000000001, -0.6000000000000001], [0, 0.1, 0.2]),          # origins left of / below zero
+    ([-3.7, -3.6, -3.5, -3.4], [-1.0, -0.7, -0.4]), ([-1, 0, 1], [-0.5, 0.5, 1.5]),
 ]
 GRIDS_MORE = [([0, 1, 2, 3, 4], [0, 1, 2, 3]), ([0, 1, 2, 3], [0, 1, 2, 3, 4]), ([2, 3, 5, 6, 8], [1, 2, 3]), ([0, 0.5, 1.5, 2.25], [0, 1, 1.75, 3]),
               ([0.5, 1.5, 2.5], [0.5, 1.5, 2.5]), ([0, 1, 2, 3, 4, 5], [0, 1, 2])]
